@@ -24,7 +24,7 @@ def names(rng, n, prefix, pool=None):
 
 
 class Scenario:
-    def __init__(self, n, c, k, sensors, seed=0, transcendental=False, pool=None, linear=False, branchy=False, share_reading=False):
+    def __init__(self, n, c, k, sensors, seed=0, transcendental=False, pool=None, linear=False, branchy=False, share_reading=False, rational=False):
         rng = random.Random(seed * 7919 + n * 131 + c * 17 + k * 5 + sum(sensors))
         self.rng = rng
         self.n, self.c, self.k, self.sensors = n, c, k, list(sensors)
@@ -47,6 +47,9 @@ class Scenario:
                 e = e + coef() * a * b
                 if transcendental:
                     e = e + sympy.sin(a) * b
+                if rational:
+                    # powers in denominators (printer precedence: mu/r**2 is not mu/r*r), negative and fractional powers
+                    e = e + coef() * a / b**2 - coef() / a**3 + coef() * b / (a**2 + 1)
                 if branchy:
                     # principal-branch / sign sensitive forms: unsound "simplifications" (asin(sin(u)) -> u, sqrt(u**2) -> u,
                     # log(exp(u)) -> u for complex u ...) change the value for inputs outside the principal range
